@@ -90,15 +90,21 @@ pub fn c18_list_becomes_array() {
 #[cfg_attr(kani, kani::stub(alloc::fmt::format, stub_format))]
 pub fn c18_durations() {
     let s: i64 = any();
-    assume(s >= -(i64::MAX / 1000) && s <= i64::MAX / 1000); // chrono::Duration::seconds panics outside this range
-    let d = chrono::Duration::seconds(s);
-    let __v6 = Value::Duration(d);
-    let r = __v6.json();
-    let exact = (s as i128) * 1_000_000_000;
+    let n: u32 = any();
+    assume(n < 1_000_000_000);
+    // chrono::Duration::new rejects values outside +-i64::MAX milliseconds
+    let d = match chrono::Duration::new(s, n) {
+        Some(d) => d,
+        None => return,
+    };
+    let v = Value::Duration(d);
+    let r = v.json();
+    let exact = (s as i128) * 1_000_000_000 + n as i128;
     if exact >= i64::MIN as i128 && exact <= i64::MAX as i128 {
         assert!(matches!(&r, Ok(j) if j.as_i64() == Some(exact as i64)));
     } else {
         assert!(r.is_err());
     }
     forget(r);
+    forget(v);
 }
